@@ -151,10 +151,29 @@ def csys(name):
         elif name == "herm_noid":
             r = np.sqrt(2)
             c = qobj.csys("qubit", (0,), lambda: MatrixBasis([(_I + _Z) / r, _X / r, _Y / r, (_I - _Z) / r]))
+        elif name == "mixed_2qubit":
+            # two subsystems with DIFFERENT kinds of basis: normalised Pauli x Hermitian orthonormal, not identity-first
+            from quara.objects.composite_system import CompositeSystem
+            from quara.objects.elemental_system import ElementalSystem
+            from quara.objects import matrix_basis as mb
+            r = np.sqrt(2)
+            c = CompositeSystem([ElementalSystem(0, mb.get_normalized_pauli_basis()),
+                                 ElementalSystem(1, MatrixBasis([_X / r, _I / r, _Y / r, _Z / r]))])
         else:
             raise KeyError(name)
         _CS[name] = (c, qobj.basis_mats(c))
     return _CS[name]
+
+
+def is_onh0(B):
+    """orthonormal, Hermitian, 0th element proportional to the identity — decided here from the matrices"""
+    F = np.array([b.flatten() for b in B])
+    d = B[0].shape[0]
+    return bool(np.allclose(F.conj() @ F.T, np.eye(len(B)), atol=1e-9) and all(np.allclose(b, b.conj().T, atol=1e-12) for b in B)
+                and np.allclose(B[0], B[0][0, 0] * np.eye(d), atol=1e-12))
+
+
+GENERIC = ("pauli_unnorm", "herm_noid", "mixed_2qubit")
 
 
 def coeffs(B, mat):
@@ -234,10 +253,10 @@ def gen_objects(ctx, g, volume=1):
     bases = ["1qubit", "qutrit", "2qubit"] + ([] if ctx.quick else ["qubit_qutrit"])
     reps = (1 if ctx.quick else 4) * volume
     for atol in ATOLS:
-        for bname in bases + ["pauli_unnorm", "herm_noid"]:
+        for bname in bases + list(GENERIC):
             c, B = csys(bname)
             d = c.dim
-            onh0 = bool(c.is_orthonormal_hermitian_0thprop_identity)
+            onh0 = is_onh0(B)
             for _ in range(reps):
                 # ---- states: (trace defect, minimum eigenvalue) grid incl. boundary (pure / rank deficient)
                 for dt in sizes(atol):
@@ -249,7 +268,7 @@ def gen_objects(ctx, g, volume=1):
                         vec = coeffs(B, rho)
                         yield dict(type="state", basis=bname, atol=atol, c=c, B=B, onh0=onh0, arr=vec,
                                    design=dict(dt=sgn * dt, mu=float(min(lam)), rank=rank))
-                if bname in ("pauli_unnorm", "herm_noid"):
+                if bname in GENERIC:
                     # basis-generic TP branch of gates
                     t = np.array([np.trace(b) for b in B]).real
                     b0 = int(np.argmax(np.abs(t)))
@@ -355,7 +374,7 @@ def ask_model(drv, o, obj, atol):
     n = d * d
     t = np.array([complex(b.diagonal().sum()) for b in c.basis()])
     tre, tim = qlist(t.real), qlist(t.imag)
-    oh = 1 if o["onh0"] else 0
+    oh = 1 if c.is_orthonormal_hermitian_0thprop_identity else 0      # the branch the implementation takes
     if ty == "state":
         rho = obj.to_density_matrix_with_sparsity()
         re, im = cparts(rho)
@@ -413,6 +432,15 @@ def correspondence(ctx):
         ctx.case((o["type"], o["basis"], atol, repr(o["design"]), tuple(np.hstack([np.asarray(x).flatten() for x in ([o["arr"]] if o["type"] in ("state", "gate") else o["arr"])]))),
                  nontrivial=not v["phys"] or o["design"].get("mu") == 0.0,
                  sample={"type": o["type"], "basis": o["basis"], "atol": atol, "design": o["design"], "verdicts": v})
+        # is_physical with exactly one tolerance given (the other one is the global setting)
+        if atol != Settings.get_atol():
+            ge, gi = bool(obj.is_eq_constraint_satisfied(None)), bool(obj.is_ineq_constraint_satisfied(None))
+            g0 = q(Fraction(repr(Settings.get_atol())))
+            for ae, ai in ((atol, None), (None, atol), (None, None)):
+                r = "1" if obj.is_physical(atol_eq_const=ae, atol_ineq_const=ai) else "0"
+                pend.append((f"{o['type']} is_physical one tolerance", (o["type"], o["basis"], atol, ae is None, ai is None, o["design"]), r,
+                             drv.ask("physargs", "n" if ae is None else q(ae), "n" if ai is None else q(ai), g0,
+                                     int(v["eq"]), int(ge), int(v["ineq"]), int(gi))))
         # constructor at the default tolerance
         if atol == ATOLS[0]:
             try:
@@ -447,10 +475,12 @@ def correspondence(ctx):
 
 PARTIAL = [
     "traceOne / identitySum verdict <=> defect <= atol holds only if the generated rtol of State.is_trace_one / Povm.is_identity_sum is 0 "
-    "(theorems traceOne_exact_iff_rtol_zero, identitySum_exact_iff_rtol_zero); on the current tree it is 1e-5 (defect D1)",
-    "psdVerdict is tied to the eigenvalue list (>= -atol); the link eigenvalue list <-> Matrix.PosSemidef (M + atol) is not proved here",
-    "tp_branches_relation (trace test = sqrt d * first-row test under ONH0) is not proved; both branches are compared with the implementation",
-    "origin objects: the equality verdicts are proved for all d, m; the PSD part is proved relative to the eigenvalue parameter (all >= 0)",
+    "(theorems traceOne_exact_iff_rtol_zero, identitySum_exact_iff_rtol_zero); on the current tree it is 1e-5 (defect D1, open known finding)",
+    "psdVerdict_eigs_iff_posSemidef assumes the eigenvalue list is exactly the spectrum of M (contract of np.linalg.eigvalsh; float accuracy "
+    "is not modelled) and that M is exactly Hermitian",
+    "origin objects: equality verdicts proved for all d, m; PSD part proved for the scalar operator matrices c*1 (psdVerdict_scalar) relative to "
+    "a non-negative eigenvalue parameter; that the origin operators are these scalar matrices is checked on the real code (oracle)",
+    "tp_branches_relation is stated for the trace list (tau,0,...,0) of an ONH0 basis (tau = Tr B_0 > 0 rational parameter; sqrt d is irrational)",
 ]
 
 
@@ -556,6 +586,19 @@ def check_object(ctx, o, atols=None, ctor=True):
             ctx.violate("C01/State.is_hermitian/rejects", f"{tag}: real vec on a Hermitian basis judged non-Hermitian", rep)
         if v["phys"] != (v["eq"] and v["ineq"]):
             ctx.violate(f"C01/{CLSNAME[ty]}.is_physical/wiring", f"{tag}: is_physical={v['phys']} but eq={v['eq']} ineq={v['ineq']}", rep)
+        # exactly one tolerance given: the other one is the global setting (None), independently
+        try:
+            g_eq, g_ineq = bool(obj.is_eq_constraint_satisfied(None)), bool(obj.is_ineq_constraint_satisfied(None))
+            p_eq_only = bool(obj.is_physical(atol_eq_const=atol))
+            p_ineq_only = bool(obj.is_physical(atol_ineq_const=atol))
+        except Exception as e:  # noqa
+            ctx.violate(f"C01/{CLSNAME[ty]}.is_physical/one-tolerance/raises", f"{type(e).__name__}: {e}", rep); return
+        if p_eq_only != (v["eq"] and g_ineq):
+            ctx.violate(f"C01/{CLSNAME[ty]}.is_physical/one-tolerance/eq-only",
+                        f"{tag}: is_physical(atol_eq_const={atol:g})={p_eq_only} but eq({atol:g})={v['eq']} and ineq(global)={g_ineq}", rep)
+        if p_ineq_only != (g_eq and v["ineq"]):
+            ctx.violate(f"C01/{CLSNAME[ty]}.is_physical/one-tolerance/ineq-only",
+                        f"{tag}: is_physical(atol_ineq_const={atol:g})={p_ineq_only} but eq(global)={g_eq} and ineq({atol:g})={v['ineq']}", rep)
         if prev is not None:
             for k in ("eq", "ineq", "phys"):
                 if prev[k] and not v[k]:
@@ -603,6 +646,31 @@ def check_settings(ctx):
     if a != (False, False) or b != (True, True, True) or Settings.get_atol() != old:
         ctx.violate("C01/Settings/atol-default", f"verdicts with atol=None do not follow Settings: default {a}, after set_atol(1e-2) {b}", rep)
     ctx.case(("settings",), nontrivial=True)
+    # loosened global tolerance, exactly one (tight) tolerance given: the other verdict is taken at the global one
+    for ty in ("state", "gate"):
+        if ty == "state":
+            o1 = State(c, coeffs(B, np.diag([1.0 + 1e-3, -1e-3]).astype(complex)), is_physicality_required=False)   # unit trace, min eig -1e-3
+            o2 = State(c, coeffs(B, np.diag([0.5 + 1e-3, 0.5]).astype(complex)), is_physicality_required=False)     # trace defect 1e-3, PSD
+        else:
+            o1 = Gate(c, hs_mix(B, 2, -1e-3), is_physicality_required=False)                                         # TP, Choi min eig -1e-3
+            h = hs_mix(B, 2, 0.1).copy(); h[0, 1] += 1e-3
+            o2 = Gate(c, h, is_physicality_required=False)                                                            # TP defect 1e-3, CP
+        try:
+            Settings.set_atol(1e-2)
+            got = tuple(bool(x) for x in (o1.is_physical(atol_eq_const=1e-10), o1.is_physical(atol_ineq_const=1e-10),
+                   o2.is_physical(atol_eq_const=1e-10), o2.is_physical(atol_ineq_const=1e-10)))
+        finally:
+            Settings.set_atol(old)
+        tight = tuple(bool(x) for x in (o1.is_physical(atol_eq_const=1e-2), o1.is_physical(atol_ineq_const=1e-2),
+                 o2.is_physical(atol_eq_const=1e-2), o2.is_physical(atol_ineq_const=1e-2)))
+        ctx.case(("settings-one-tolerance", ty), nontrivial=True)
+        if got != (True, False, False, True):
+            ctx.violate(f"C01/{CLSNAME[ty]}.is_physical/one-tolerance/global-loosened",
+                        f"global atol 1e-2, one tolerance 1e-10 given: (ineq-violating: eq-only, ineq-only; eq-violating: eq-only, ineq-only) = {got}, "
+                        "expected (True, False, False, True)", dict(rep, type=ty))
+        if tight != (False, True, True, False):
+            ctx.violate(f"C01/{CLSNAME[ty]}.is_physical/one-tolerance/global-default",
+                        f"default global atol, one tolerance 1e-2 given: {tight}, expected (False, True, True, False)", dict(rep, type=ty))
 
 
 def check_origin(ctx, bname, m, g):
@@ -635,7 +703,29 @@ def check_origin(ctx, bname, m, g):
             ctx.violate(f"C01/{CLSNAME[ty]}.generate_zero_obj/nonzero", f"{bname} m={m}: zero object is not the zero operator", rep)
 
 
+def check_bases(ctx):
+    """the branch selector of gate.is_tp and the MProcess constructor guard, against the basis matrices themselves"""
+    for bname in ("1qubit", "qutrit", "2qubit") + GENERIC:
+        c, B = csys(bname)
+        ctx.case(("basis", bname), nontrivial=bname in GENERIC)
+        rep = {"kind": "basis", "basis": bname}
+        want = is_onh0(B)
+        if bool(c.is_orthonormal_hermitian_0thprop_identity) != want:
+            ctx.violate("C01/CompositeSystem/onh0-flag", f"{bname}: is_orthonormal_hermitian_0thprop_identity="
+                        f"{c.is_orthonormal_hermitian_0thprop_identity}, the product basis says {want}", rep)
+        d = c.dim
+        hss = [hs_unitary(B, np.eye(d)) / 2, hs_unitary(B, np.eye(d)) / 2]
+        try:
+            MProcess(c, hss, is_physicality_required=False); built = True
+        except ValueError:
+            built = False
+        if built != want:
+            ctx.violate("C01/MProcess.__init__/basis-guard", f"{bname}: constructor {'accepts' if built else 'rejects'} a system whose "
+                        f"basis is {'not ' if not want else ''}orthonormal Hermitian identity-first", rep)
+
+
 def oracle(ctx, volume=1):
+    check_bases(ctx)
     g = ctx.npgen(2)
     k = 0
     for o in gen_objects(ctx, g, volume):
@@ -661,7 +751,7 @@ def replay(ctx, data):
     before = len(ctx.violations)
     if r["kind"] == "object":
         c, B = csys(r["basis"])
-        o = dict(type=r["type"], basis=r["basis"], atol=r["atol"], c=c, B=B, onh0=bool(c.is_orthonormal_hermitian_0thprop_identity),
+        o = dict(type=r["type"], basis=r["basis"], atol=r["atol"], c=c, B=B, onh0=is_onh0(B),
                  arr=np.array(r["arr"], dtype=np.float64) if r["type"] in ("state", "gate") else [np.array(a, dtype=np.float64) for a in r["arr"]],
                  m=r.get("m"), design=r.get("design", {}))
         obj = build(o)
@@ -671,6 +761,8 @@ def replay(ctx, data):
         check_object(ctx, o, atols=[r["atol"]], ctor=(r["atol"] == Settings.get_atol()))
     elif r["kind"] == "origin":
         check_origin(ctx, r["basis"], r["m"], ctx.npgen(3))
+    elif r["kind"] == "basis":
+        check_bases(ctx)
     else:
         check_settings(ctx)
     for v in ctx.violations[before:]:
